@@ -151,6 +151,9 @@ def run_process(ctx):
     preds = PredIter()
 
     class Store:
+        def __len__(self):      # a value store is a user object: it may well be falsy (the library must test 'is None', never truth)
+            return 0
+
         def get_modified_time(self):
             log.append(("get_modified_time",))
             return raw
@@ -300,12 +303,22 @@ def pwc_unit(ctx):
     class BaseBoom(BaseException):
         pass
 
+    import dataclasses
+
+    @dataclasses.dataclass(frozen=True)
+    class FrozenBoom(Boom):
+        """an exception whose attributes cannot be assigned (a frozen dataclass): ``exc.__traceback__ = ...`` raises, ``with_traceback`` works"""
+        code: int = 3
+
     def process(n):
         calls.append(n)
 
         def _a():
             def _b():
-                o = ctx.choose(3, "process")
+                o = ctx.choose(4, "process")
+                if o == 3:
+                    raised["e"] = FrozenBoom(7)
+                    raise raised["e"]
                 if o == 1:
                     raised["e"] = Boom("x")
                     raise raised["e"]
@@ -318,6 +331,9 @@ def pwc_unit(ctx):
         _a()
 
     class VS:
+        def __len__(self):      # a value store is a user object: it may well be falsy (the library must test 'is None', never truth)
+            return 0
+
         pass
 
     vs = VS()
@@ -461,6 +477,9 @@ def update_stale_totals_unit(ctx):
         pass
 
     class VS:
+        def __len__(self):      # a value store is a user object: it may well be falsy (the library must test 'is None', never truth)
+            return 0
+
         pass
 
     vs = VS()
@@ -523,6 +542,9 @@ def run_process_bounded(ctx):
     raw = None if mt is None else RawTime(mt)
 
     class Store:
+        def __len__(self):      # a value store is a user object: it may well be falsy (the library must test 'is None', never truth)
+            return 0
+
         def get_modified_time(self):
             log.append(("get_modified_time",))
             return raw
@@ -632,4 +654,8 @@ unit("stale.process[bounded<=3-predecessors]", props=["C05", "C03", "C08", "C14"
 
 from .sysprobe import replay_for as _replay_for  # noqa: E402
 
-REPLAYS = [("stale.*", _replay_for(['C03', 'C05', 'C15', 'C14'], 1500))]
+def _replay_f6(ob):
+    return __import__("contracts.tracebacks", fromlist=["_replay_f6"])._replay_f6(ob)
+
+
+REPLAYS = [("stale.process_with_callbacks/Exception:*", _replay_f6), ("stale.*", _replay_for(['C03', 'C05', 'C15', 'C14'], 1500))]
